@@ -23,6 +23,7 @@ type c09Desc struct {
 	State     string `json:"local_state"`
 	Closer    string `json:"closer"` // Close | CloseNow | none (CloseRead closes by itself)
 	Deflate   bool   `json:"deflate,omitempty"`
+	Size      int    `json:"size,omitempty"`
 	Seed      uint64 `json:"seed"`
 }
 
@@ -70,7 +71,7 @@ func init() {
 		CaseTimeout: 150 * time.Second,
 		ChildSetup:  func() { startCanary(); installPointHooks(false) },
 		Require: func(tier string) map[string]int64 {
-			return map[string]int64{"close_calls_timed": 100, "closenow_calls_timed": 100, "blocked_calls_released": 150, "stall_offsets_covered": 100, "closeread_contexts_timed": 40}
+			return map[string]int64{"close_calls_timed": 100, "closenow_calls_timed": 100, "blocked_calls_released": 150, "stall_offsets_covered": 100, "closeread_contexts_timed": 40, "protocol_violations_sent": 40}
 		},
 		Assumptions: []string{
 			"time bounds are the documented ones plus slack; a case whose window saw the 5 ms canary oversleep by more than 250 ms is inconclusive, never a violation",
@@ -95,6 +96,47 @@ func c09Frames() []c09Frame {
 		}},
 		{"close-frame", func(rp *RawPeer) []byte { return rp.Mask(wire.Close(wire.ClosePayload(1000, "bye"))).Bytes() }},
 	}
+}
+
+var c09Violations = []string{"stray-continuation", "rsv2", "reserved-opcode", "wrong-masking", "ping-126", "fragmented-ping", "text-inside-message", "length-top-bit", "close-1-byte", "close-code-1005", "rsv1-not-negotiated"}
+
+func c09ViolationFrames(rp *RawPeer, kind string) []byte {
+	var out []byte
+	add := func(f wire.Frame) { out = append(out, rp.Mask(f).Bytes()...) }
+	switch kind {
+	case "stray-continuation":
+		add(wire.Data(wire.OpCont, true, []byte("no message in progress")))
+	case "rsv2":
+		f := wire.Data(wire.OpText, true, []byte("x"))
+		f.Rsv2 = true
+		add(f)
+	case "reserved-opcode":
+		add(wire.Frame{Fin: true, Op: 0xB, LenForm: -1})
+	case "wrong-masking":
+		f := rp.Mask(wire.Data(wire.OpText, true, []byte("x")))
+		f.Masked = !f.Masked
+		out = append(out, f.Bytes()...)
+	case "ping-126":
+		add(wire.Ping(make([]byte, 126)))
+	case "fragmented-ping":
+		f := wire.Ping([]byte("p"))
+		f.Fin = false
+		add(f)
+	case "text-inside-message":
+		add(wire.Data(wire.OpText, false, []byte("first")))
+		add(wire.Data(wire.OpText, true, []byte("second")))
+	case "length-top-bit":
+		add(wire.Frame{Fin: true, Op: wire.OpBinary, LenForm: 8, DeclLen: 1<<63 | 5})
+	case "close-1-byte":
+		add(wire.Close([]byte{3}))
+	case "close-code-1005":
+		add(wire.Close(wire.ClosePayload(1005, "")))
+	case "rsv1-not-negotiated":
+		f := wire.Data(wire.OpText, true, []byte("x"))
+		f.Rsv1 = true
+		add(f)
+	}
+	return out
 }
 
 func c09Gen(tier string, seed int64) []fw.Case {
@@ -147,6 +189,27 @@ func c09Gen(tier string, seed int64) []fw.Case {
 				}
 			}
 		}
+		// the peer breaks the protocol (one frame of each kind), then stays silent
+		for _, v := range c09Violations {
+			for _, st := range []string{"idle", "reader-blocked", "closeread", "pinger-waiting"} {
+				for ci, cl := range []string{"Close", "CloseNow"} {
+					if tier == "quick" && (len(v)+len(st)+ci)%2 != 0 {
+						continue
+					}
+					add(c09Desc{Role: role, Adversary: "violation", Frame: v, State: st, Closer: cl})
+				}
+			}
+		}
+		// the peer never reads and a streamed message's fragment fills the write buffer to within a few bytes
+		// when the closer runs (every fill level around the buffer size)
+		for size := 4078; size <= 4100; size++ {
+			for ci, cl := range []string{"Close", "CloseNow"} {
+				if tier == "quick" && (size+ci)%2 != 0 {
+					continue
+				}
+				add(c09Desc{Role: role, Adversary: "never-reads", State: "fragment-buffered", Size: size, Closer: cl, Deflate: false})
+			}
+		}
 		// CloseRead closes the connection by itself when a data message arrives
 		for _, adv := range []string{"echoes", "silent", "keeps-sending"} {
 			reps := tierPick(tier, 4, 20)
@@ -164,6 +227,9 @@ func c09Run(r *fw.R, d c09Desc) {
 	lib2peer := xport.Plan{NoTap: true}
 	if d.Adversary == "never-reads" {
 		lib2peer.Capacity = 600
+		if d.State == "fragment-buffered" {
+			lib2peer.Capacity = 3
+		}
 	}
 	p := wire.Params{Deflate: d.Deflate}
 	c, libEnd, peerEnd, err := libConn(d.Role, p, 16, lib2peer, xport.Plan{NoTap: true})
@@ -171,7 +237,7 @@ func c09Run(r *fw.R, d c09Desc) {
 		r.Violate("C09/attach-failed", err.Error(), "")
 		return
 	}
-	defer c.CloseNow()
+	defer closeNowBounded(c, 3*time.Second)
 	defer peerEnd.Close()
 	var transportClosedAt atomic.Int64
 	t00 := time.Now()
@@ -238,6 +304,9 @@ func c09Run(r *fw.R, d c09Desc) {
 		}()
 	case d.Adversary == "half-close":
 		peerEnd.CloseWrite()
+	case d.Adversary == "violation":
+		peer.SendBytes(c09ViolationFrames(peer, d.Frame))
+		r.Count("protocol_violations_sent", 1)
 	}
 
 	// ---- the local state
@@ -300,6 +369,13 @@ func c09Run(r *fw.R, d c09Desc) {
 				}
 			}
 		})
+	case "fragment-buffered":
+		w, err := c.Writer(ctx, websocket.MessageBinary)
+		if err == nil {
+			block("Writer.Write", func() {
+				w.Write(make([]byte, d.Size)) // stays in the write buffer, or blocks flushing it
+			})
+		}
 	case "pinger-waiting":
 		block("Ping", func() { c.Ping(ctx) })
 		if d.Adversary != "never-reads" {
